@@ -56,6 +56,8 @@ def cases(tier, seed):
             o += ["--nodebump", "--noopt"]
         elif c < 0.36:
             o.append("--clean")
+        if spec["ff"] == "PARSE" and "--clean" not in o and rng.random() < 0.35:
+            o.append(rng.choice(["--neutraln", "--neutralc"]))
         if "--clean" not in o and rng.random() < 0.15:
             # the pKa route (stubbed pKa source, random table): hydrogens are stripped, states changed, hydrogens
             # rebuilt and debumped again
@@ -70,6 +72,7 @@ def cases(tier, seed):
     n = 150 if tier == "quick" else 18000
     for spec in workload.standard_cases(tier, seed, n, n, opts_fn=opts, frag_share=0.35,
                                         p={"variant_prob": 0.1, "na_prob": 0.1, "waters": [0, 2, 5], "damage_prob": 0.4, "carboxyl_asym_prob": 0.4,
+                                           "alias_prob": 0.25,
                                            "dense_prob": 0.9, "pool": None, "crowd_prob": 0.35}):
         spec["kind"] = "run"
         out.append(spec)
